@@ -115,7 +115,9 @@ func VerifTTLSequence() {
 		case 0:
 			ttl := zzverif.Int64("ttl")
 			zzverif.Assume(ttl >= 1)
-			zzverif.Assume(ttl <= 1_000_000)
+			// any positive number of seconds when a MaxTTL caps it (the cap applies to the SECONDS, before they become a
+			// duration); without a cap the seconds must fit a time.Duration
+			zzverif.Assume(zzverif.Or(maxTTL > 0, ttl <= 1_000_000))
 			v := zzverif.Int("val")
 			c.Set(k, v, ttl)
 			eff := ttl
